@@ -149,9 +149,12 @@ class IterableQueue(Iterator[Elem]):
             self._extra_lid = multiprocessing.Queue(maxsize=1)
         for _ in range(num_suppliers):
             self._spare_lids.put(None)
-        self._extra_lid.put(None)
-        # The consumer that takes this single token is the one that adds the extra
-        # end marker to the queue; see `__next__`. `renew` puts the token back.
+        # `self._extra_lid` starts empty. The consumer that manages to put a token in this
+        # one-slot queue is the one that adds the extra end marker to the queue; see `__next__`.
+        # `renew` takes the token out. (Putting into a full or non-full bounded queue
+        # fails or succeeds at once, in every process; taking a token that another process
+        # has just put in a multiprocessing queue does not, because the token is delivered
+        # by a background thread and may not be visible yet.)
         # User should not touch these internal helper queues.
         # TODO: the name 'lid' is not very good; something implying the "bottom" would be better.
         # TODO: do we need to use a lock to group the access to the helper queues?
@@ -240,8 +243,11 @@ class IterableQueue(Iterator[Elem]):
                     if self._to_stop is not None and self._to_stop.is_set():
                         raise StopRequested
         else:
+            # A token recycled by `renew` in another process is delivered by a background
+            # thread of the multiprocessing queue and may not be visible yet.
+            patience = 0.01 if isinstance(self._spare_lids, queue.Queue) else 2.0
             try:
-                z = self._spare_lids.get(timeout=0.01)
+                z = self._spare_lids.get(timeout=patience)
             except queue.Empty:
                 raise RuntimeError(
                     '`put_end` is called more than `num_suppliers` times'
@@ -280,11 +286,11 @@ class IterableQueue(Iterator[Elem]):
                 # who is the first to see the bottom of the queue, and subsequent
                 # consumers will get/put this `None` without increasing its count.
                 # Several consumers may have moved a lid and see `_used_lids` full
-                # at about the same time; only the one that obtains the single
+                # at about the same time; only the one that manages to put the single
                 # token adds the extra `None`.
                 try:
-                    self._extra_lid.get(timeout=0.01)
-                except queue.Empty:
+                    self._extra_lid.put(None, block=False)
+                except queue.Full:
                     pass
                 else:
                     self.put(None)
@@ -327,4 +333,4 @@ class IterableQueue(Iterator[Elem]):
         for _ in range(self._num_suppliers):
             z = self._used_lids.get()
             self._spare_lids.put(z)
-        self._extra_lid.put(None)
+        self._extra_lid.get()
